@@ -19,6 +19,7 @@ import (
 	"go/ast"
 	"go/token"
 	"go/types"
+	"sort"
 	"strconv"
 	"strings"
 
@@ -1089,6 +1090,8 @@ type c02srcNext struct {
 	writerRest []ast.Stmt
 	seenVar    types.Object
 	tmp        int
+	method     string // "Next" | "Left": `return s.<method>()` is the retry
+	retryPc    string // where the retry goes in the model: ".nextB" | ".idle"
 }
 
 func (n *c02srcNext) recvName() string {
@@ -1173,8 +1176,17 @@ func c02srcTerminal(body []ast.Stmt) bool {
 	if len(body) == 0 {
 		return false
 	}
-	_, ok := body[len(body)-1].(*ast.ReturnStmt)
-	return ok
+	switch last := body[len(body)-1].(type) {
+	case *ast.ReturnStmt:
+		return true
+	case *ast.ExprStmt:
+		if c, ok := last.X.(*ast.CallExpr); ok {
+			if id, ok := c.Fun.(*ast.Ident); ok && id.Name == "panic" {
+				return true
+			}
+		}
+	}
+	return false
 }
 
 // assign translates `a, b = child.Next()` / `a, b := child.Next()` / `v := len(...)` / `v := <cond>`; returns the Lean
@@ -1273,6 +1285,13 @@ func (n *c02srcNext) stmts(list []ast.Stmt, ind string, writer bool) string {
 			n.seenVar = live[0]
 			n.writerRest = rest
 			return ind + "(s, .goto (.nextW " + n.names[n.resTx] + " (Int.toNat " + n.names[live[0]] + ")))"
+		case strings.HasPrefix(src, "panic("):
+			call := v.X.(*ast.CallExpr)
+			if tv, ok := x.p.TypesInfo.Types[call.Args[0]]; ok && tv.Value != nil && isString(tv.Type) {
+				msg, _ := strconv.Unquote(tv.Value.ExactString())
+				return ind + fmt.Sprintf("(s, .ret (.panic %q))", msg)
+			}
+			return ind + x.fail(s0, "%s: panic with a non-constant message", n.method)
 		case strings.HasPrefix(src, n.recvName()+".startNext("):
 			call := v.X.(*ast.CallExpr)
 			if len(call.Args) != 1 {
@@ -1313,8 +1332,8 @@ func (n *c02srcNext) stmts(list []ast.Stmt, ind string, writer bool) string {
 		case 0:
 			return ind + "(s, .ret (.tok " + n.names[n.resTx] + " " + n.names[n.resOk] + "))"
 		case 1:
-			if x.src(v.Results[0]) == n.recvName()+".Next()" {
-				return ind + "(s, .goto .nextB)"
+			if x.src(v.Results[0]) == n.recvName()+"."+n.method+"()" {
+				return ind + "(s, .goto " + n.retryPc + ")"
 			}
 		case 2:
 			a, aok := v.Results[0].(*ast.Ident)
@@ -1344,7 +1363,7 @@ func (x *c02srcTr) nextSections() string {
 		return ""
 	}
 	info := x.p.TypesInfo
-	n := &c02srcNext{x: x, names: map[types.Object]string{}, isB: map[types.Object]bool{}}
+	n := &c02srcNext{x: x, names: map[types.Object]string{}, isB: map[types.Object]bool{}, method: "Next", retryPc: ".nextB"}
 	if len(fd.Recv.List[0].Names) == 1 {
 		n.recv = info.Defs[fd.Recv.List[0].Names[0]]
 	}
@@ -1394,6 +1413,177 @@ func (x *c02srcTr) nextSections() string {
 	return b.String()
 }
 
+// leftWriterSection: the writer section of compositeSchedule.Left — the statements that follow `rwMu.Lock()` in its block,
+// to `return s.Left()` (the retry, `.goto .idle`) — in the same continuation style; the one integer it takes over from
+// the reader section (`len(s.scheds)` seen there) is the parameter `seen`.
+func (x *c02srcTr) leftWriterSection() string {
+	fd := x.findMethod("compositeSchedule", "Left")
+	if fd == nil {
+		x.failf("method compositeSchedule.Left not found")
+		return ""
+	}
+	info := x.p.TypesInfo
+	n := &c02srcNext{x: x, names: map[types.Object]string{}, isB: map[types.Object]bool{}, method: "Left", retryPc: ".idle"}
+	if len(fd.Recv.List[0].Names) == 1 {
+		n.recv = info.Defs[fd.Recv.List[0].Names[0]]
+	}
+	var rest []ast.Stmt
+	found := 0
+	ast.Inspect(fd.Body, func(nd ast.Node) bool {
+		bl, ok := nd.(*ast.BlockStmt)
+		if !ok {
+			return true
+		}
+		for i, st := range bl.List {
+			if es, ok := st.(*ast.ExprStmt); ok && strings.HasSuffix(x.src(es), ".rwMu.Lock()") {
+				found++
+				rest = bl.List[i+1:]
+			}
+		}
+		return true
+	})
+	if found != 1 {
+		x.failf("compositeSchedule.Left: expected exactly one rwMu.Lock(), found %d", found)
+		return ""
+	}
+	// integers defined before the section and used in it
+	defined := map[types.Object]bool{}
+	for _, st := range rest {
+		ast.Inspect(st, func(nd ast.Node) bool {
+			if id, ok := nd.(*ast.Ident); ok {
+				if o := info.Defs[id]; o != nil {
+					defined[o] = true
+				}
+			}
+			return true
+		})
+	}
+	var live []types.Object
+	seen := map[types.Object]bool{}
+	for _, st := range rest {
+		ast.Inspect(st, func(nd ast.Node) bool {
+			if id, ok := nd.(*ast.Ident); ok {
+				if o, isVar := info.Uses[id].(*types.Var); isVar && o != n.recv && !defined[o] && !seen[o] && !o.IsField() && o.Pkg() == x.p.Types && o.Parent() != x.p.Types.Scope() {
+					seen[o] = true
+					live = append(live, o)
+				}
+			}
+			return true
+		})
+	}
+	if len(live) != 1 || !isInt(live[0].Type()) {
+		x.failf("compositeSchedule.Left: expected exactly one integer carried into the writer section, got %d", len(live))
+		return ""
+	}
+	nm := n.fresh(live[0].Name())
+	n.names[live[0]] = nm
+	var b strings.Builder
+	b.WriteString("/-- regenerated from `core/schedule/composite.go` method `(*compositeSchedule).Left`: its WRITER section, from `Lock` to the\npanic or to the retry `return s.Left()` (`.goto .idle`); `seen` = the `len(s.scheds)` read in the reader section -/\n")
+	b.WriteString("def compositeSchedule_Left_writer {σ : Type} (ops : Ops σ) (s : Sh σ) (seen : Nat) (now : Int) : Sh σ × Out :=\n")
+	b.WriteString("  let " + nm + " : Int := (seen : Int)\n")
+	b.WriteString(n.stmts(rest, "  ", true) + "\n\n")
+	return b.String()
+}
+
+// stmtSet: the statements of a straight-line method as canonical strings (receiver → s, the parameter → t), sorted:
+// the order of independent statements inside one critical section does not matter, what is done does.
+func (x *c02srcTr) stmtSet(recvType, name, lean, doc string, sorted bool) string {
+	fd := x.findMethod(recvType, name)
+	if fd == nil {
+		x.failf("method %s.%s not found", recvType, name)
+		return ""
+	}
+	ren := map[string]string{}
+	if len(fd.Recv.List[0].Names) == 1 {
+		ren[fd.Recv.List[0].Names[0].Name] = "s"
+	}
+	for _, f := range fd.Type.Params.List {
+		for _, nm := range f.Names {
+			ren[nm.Name] = "t"
+		}
+	}
+	var rows []string
+	for _, st := range fd.Body.List {
+		switch st.(type) {
+		case *ast.ExprStmt, *ast.AssignStmt, *ast.DeferStmt:
+		default:
+			x.fail(st, "%s: statement %T", name, st)
+			continue
+		}
+		src := x.src(st)
+		// rename whole identifiers
+		var out strings.Builder
+		for i := 0; i < len(src); {
+			j := i
+			for j < len(src) && (src[j] == '_' || src[j] >= 'a' && src[j] <= 'z' || src[j] >= 'A' && src[j] <= 'Z' || src[j] >= '0' && src[j] <= '9') {
+				j++
+			}
+			if j > i {
+				w := src[i:j]
+				if r, ok := ren[w]; ok && (i == 0 || src[i-1] != '.') {
+					w = r
+				}
+				out.WriteString(w)
+				i = j
+			} else {
+				out.WriteByte(src[i])
+				i++
+			}
+		}
+		rows = append(rows, strconv.Quote(out.String()))
+	}
+	if sorted {
+		sort.Strings(rows)
+	}
+	return fmt.Sprintf("/-- regenerated from `core/schedule/composite.go` method `(*%s).%s`: %s -/\ndef %s : List String := [%s]\n\n", recvType, name, doc, lean, strings.Join(rows, ", "))
+}
+
+// startNextFn: compositeSchedule.startNext statement by statement over the building blocks `eShiftScheds`,
+// `eShiftLeftAfter`, `eStartAt` of Model/C02NextC.lean (each with its index-out-of-range case).
+func (x *c02srcTr) startNextFn() string {
+	fd := x.findMethod("compositeSchedule", "startNext")
+	if fd == nil {
+		x.failf("method compositeSchedule.startNext not found")
+		return ""
+	}
+	recv := "?"
+	if len(fd.Recv.List[0].Names) == 1 {
+		recv = fd.Recv.List[0].Names[0].Name
+	}
+	param := ""
+	for _, f := range fd.Type.Params.List {
+		for _, nm := range f.Names {
+			if param != "" {
+				x.failf("startNext: more than one parameter")
+			}
+			param = nm.Name
+		}
+	}
+	var b strings.Builder
+	b.WriteString("/-- regenerated from `core/schedule/composite.go` method `(*compositeSchedule).startNext`, statement by statement -/\n")
+	b.WriteString("def compositeSchedule_startNext {σ : Type} (ops : Ops σ) (s : Sh σ) (t : Int) : Except String (Sh σ) := do\n")
+	for _, st := range fd.Body.List {
+		src := x.src(st)
+		switch {
+		case src == recv+".scheds = "+recv+".scheds[1:]":
+			b.WriteString("  let s ← eShiftScheds s\n")
+		case src == recv+".leftAfter = "+recv+".leftAfter[1:]":
+			b.WriteString("  let s ← eShiftLeftAfter s\n")
+		case strings.HasPrefix(src, recv+".scheds[") && strings.HasSuffix(src, "].Start("+param+")"):
+			idx := strings.TrimSuffix(strings.TrimPrefix(src, recv+".scheds["), "].Start("+param+")")
+			if _, err := strconv.Atoi(idx); err != nil {
+				x.fail(st, "startNext: index %s", idx)
+				continue
+			}
+			b.WriteString("  let s ← eStartAt ops s " + idx + " t\n")
+		default:
+			x.fail(st, "startNext: statement %s", src)
+		}
+	}
+	b.WriteString("  pure s\n\n")
+	return b.String()
+}
+
 func c02srcExtra(t *tr) string {
 	x := &c02srcTr{t: t, p: t.pkg}
 	var b strings.Builder
@@ -1408,6 +1598,9 @@ func c02srcExtra(t *tr) string {
 	b.WriteString(x.leftDecision(true))
 	b.WriteString("-- ---------------------------------------------------------------- compositeSchedule.Next\n\nsection\nopen Pandora.Model.C02 Pandora.Model.C02.Par\n\n")
 	b.WriteString(x.nextSections())
-	b.WriteString("end\n")
+	b.WriteString(x.leftWriterSection())
+	b.WriteString(x.startNextFn())
+	b.WriteString("end\n\n")
+	b.WriteString(x.stmtSet("compositeSchedule", "Start", "compositeSchedule_Start", "its statements (receiver `s`, parameter `t`), sorted", true))
 	return b.String()
 }
